@@ -280,7 +280,7 @@ async fn connector_fixture() -> Result<CFx, String> {
                     let name = format!("u{}", n);
                     let ca = if ca_ours { "      ca: /verif/pki/ca.crt\n" } else { "" };
                     let tname = ["http", "socks", "quic"][kind as usize];
-                    let extra = if kind == 2 { "    bind: \"127.0.0.1:0\"\n    inline_udp: true\n" } else { "" };
+                    let extra = if kind == 2 { "    bind: \"127.0.0.1:0\"\n    inlineUdp: true\n" } else { "" };
                     connectors.push_str(&format!(
                         "  - name: {name}\n    type: {tname}\n    server: localhost\n    port: {port}\n{extra}    tls:\n      insecure: {insecure}\n{ca}",
                         name = name,
